@@ -5,6 +5,7 @@ package reader
 import (
 	clientv3 "go.etcd.io/etcd/client/v3"
 
+	"github.com/milvus-io/milvus/pkg/mq/msgdispatcher"
 	"github.com/milvus-io/milvus/pkg/mq/msgstream"
 
 	"github.com/zilliztech/milvus-cdc/core/config"
@@ -21,3 +22,6 @@ func verifBarrierKey(m msgstream.TsMsg) int64 { return 0 }
 
 // verifEtcdClient never provides a client unless built with the verif tag.
 func verifEtcdClient(cfg config.EtcdServerConfig) *clientv3.Client { return nil }
+
+// verifDispatcherClient never provides a client unless built with the verif tag.
+func verifDispatcherClient(mqConfig config.MQConfig, ttMsgStream bool) msgdispatcher.Client { return nil }
